@@ -39,6 +39,10 @@ import (
 //	J  join a non-voter (an address nobody listens on: the quorum stays 2 of 3 voters)
 //	R  remove the non-voter joined last (only offered while one is joined)
 //	B  barrier on ldr
+//	Q  not-ready window on ldr: a ready channel is registered, a strong and a
+//	   linearizable read are sent - refused with ErrNotReady, which is no violation -
+//	   then the channel is closed (directly after X: a leader in a fresh term, in
+//	   which only raft's no-op is committed, refuses its first reads)
 //
 // is followed by TWO linearizable reads on the CURRENT leader with no
 // intervening write (the first one after a leader change is upgraded to a
@@ -59,7 +63,7 @@ const (
 )
 
 var c38cOpName = map[byte]string{'W': "write", 'S': "strong-read", 'L': "linearizable-read", 'X': "leadership-transfer", 'C': "crash+restart-follower",
-	'P': "snapshot", 'I': "isolate-follower+compact+heal(snapshot-install)", 'J': "join", 'R': "remove", 'B': "barrier"}
+	'P': "snapshot", 'I': "isolate-follower+compact+heal(snapshot-install)", 'J': "join", 'R': "remove", 'B': "barrier", 'Q': "not-ready-window"}
 
 func c38cHistories(depth int) []string {
 	var out []string
@@ -69,7 +73,7 @@ func c38cHistories(depth int) []string {
 		if len(h) == depth {
 			return
 		}
-		for _, op := range "WSLXCPIJRB" {
+		for _, op := range "WSLXCPIJRBQ" {
 			switch op {
 			case 'J':
 				rec(h+"J", joined+1)
@@ -321,6 +325,35 @@ func (x *c38cRun) step(i int) {
 		if err := x.store(x.leader()).Barrier(); err != nil {
 			x.fail("barrier: %v", err)
 		}
+	case 'Q':
+		s := x.store(x.leader())
+		ch := make(chan struct{})
+		s.RegisterReadyChannel(ch)
+		var got []string
+		for _, lvl := range []proto.ConsistencyLevel{proto.ConsistencyLevel_STRONG, proto.ConsistencyLevel_LINEARIZABLE} {
+			var err error
+			if x.api == "request" {
+				eqr := executeQueryRequestFromString("SELECT COUNT(*) FROM kv", lvl, false, false, false)
+				eqr.LinearizableTimeout = int64(c38cReadTimeout)
+				_, _, _, err = s.Request(context.Background(), eqr)
+			} else {
+				qr := queryRequestFromString("SELECT COUNT(*) FROM kv", false, false, false)
+				qr.Level = lvl
+				qr.LinearizableTimeout = int64(c38cReadTimeout)
+				_, _, _, err = s.Query(context.Background(), qr)
+			}
+			switch {
+			case errors.Is(err, ErrNotReady):
+				got = append(got, "refused")
+			case err == nil:
+				got = append(got, "served")
+			default:
+				got = append(got, "other-error")
+			}
+		}
+		close(ch)
+		x.poll("store ready after the ready channel was closed", s.Ready)
+		x.obs = append(x.obs, "Q:"+strings.Join(got, "/"))
 	}
 	x.lastOp = c38cOpName[op]
 }
@@ -360,7 +393,7 @@ func TestVerif_C38_cluster(t *testing.T) {
 		}
 	}
 	depth := r.Pick(2, 3)
-	r.Rule(fmt.Sprintf("every history of length <=%d over {write, strong read, linearizable read, leadership transfer to the next node, crash+restart of a follower, snapshot on the leader, isolate a follower + 3 writes + leader snapshot with log compaction + heal (the follower installs the snapshot), join a non-voter, remove it, barrier} on a fresh live cluster of 3 voting real Stores, each followed by two linearizable reads on the current leader with no intervening write, the reads sent through Store.Query; the histories of length <=%d once more with the reads sent through Store.Request; plus the directed histories XXX and XXXL (leadership handed round the ring until the first leader leads again) through both; every linearizable read must return without error within its 5 s timeout. evaluations = histories; transitions = steps and reads; distinct = (API, history, outcome of each linearizable read)", depth, depth-1))
+	r.Rule(fmt.Sprintf("every history of length <=%d over {write, strong read, linearizable read, leadership transfer to the next node, crash+restart of a follower, snapshot on the leader, isolate a follower + 3 writes + leader snapshot with log compaction + heal (the follower installs the snapshot), join a non-voter, remove it, barrier, not-ready window on the leader (ready channel registered, a strong and a linearizable read refused with ErrNotReady, channel closed)} on a fresh live cluster of 3 voting real Stores, each followed by two linearizable reads on the current leader with no intervening write, the reads sent through Store.Query; the histories of length <=%d once more with the reads sent through Store.Request; plus the directed histories XXX and XXXL (leadership handed round the ring until the first leader leads again) through both; every linearizable read must return without error within its 5 s timeout. evaluations = histories; transitions = steps and reads; distinct = (API, history, outcome of each linearizable read)", depth, depth-1))
 	r.Assume("the interleavings inside hashicorp/raft are uncontrolled; every read is issued with all nodes up, the network healed and one stable leader, and a failure under which the leader or its term changed is repeated instead of judged")
 	r.Assume("all raft timeouts 5 s; a joined non-voter is an address nobody listens on (it never answers; the quorum is 2 of the 3 voters); crashes are Store.Close without snapshot + reopen")
 	type job struct{ h, api string }
